@@ -600,6 +600,15 @@ correctly): the wrap only shows once a square overflows — which is why the igr
 while `cable_length` was not. -/
 example : edgeLenAt ⟨.raw, .raw, true⟩ (.uint 32) [⟨1, -1, 5, 0, 0, .root⟩, ⟨2, 1, 3, 0, 0, .end_⟩] 2 1 = 2 := by decide
 
+/-- Every call that hands coordinates to the compiled accelerator's `parent_dist` — in `parent_dist`, `cable_length`,
+`geodesic_matrix(weight='weight')` and `_generate_segments(weight='weight')` — casts them to a floating dtype first (facts
+re-extracted from the current source).  The accelerator computes in the dtype it is handed, so integer columns overflowed
+or wrapped there while the igraph / networkx sites (theorems above) were right: repaired defect ece9888.  Dropping the cast
+at any of the four sites stops this theorem from checking, and the integer-dtype stream then exhibits the failing table. -/
+theorem fastcore_parent_dist_receives_float_coordinates :
+    Navis.Gen.Dist.pdFcCoords = ["cast"] ∧ Navis.Gen.Dist.clFcCoords = ["cast"] ∧
+      Navis.Gen.Dist.gmFcCoords = ["cast"] ∧ Navis.Gen.Dist.sgFcCoords = ["cast"] := by decide
+
 end EdgeDtypes
 
 /-! ### Non-vacuity (second pass) -/
